@@ -322,7 +322,7 @@ def run_case(case):
 
 def gen_cases(tier, seed):
     rng = random.Random(seed * 977 + 5)
-    n = 300 if tier == "quick" else 6000
+    n = 300 if tier == "quick" else 30000
     names = list(FIXED)
     while len(names) < n:
         names.append(gen_name(rng))
